@@ -42,3 +42,43 @@ EXPORT uint64_t vh_module_blocks(const MODULE* m, const void** ptrs, uint64_t* s
   return k;
 }
 EXPORT uint64_t vh_block_size(const void* p) { return p ? malloc_usable_size((void*)p) : 0; }
+
+#include "spqlios/q120/q120_arithmetic_private.h"
+// q120 NTT tables: out = [n, nlevels, input_bs, output_bs, red_h, red_cst[4]] then per level [half_bs, bs, reduce, q2bs[4]]
+EXPORT uint64_t vh_q120_ntt_meta(const q120_ntt_precomp* p, uint64_t* out, uint64_t cap) {
+  uint64_t n = p->n, lg = 0;
+  while ((UINT64_C(1) << lg) < n) ++lg;
+  uint64_t nlevels = n >= 2 ? lg + 1 : 0;
+  if (cap < 9 + 7 * nlevels) return 0;
+  out[0] = n; out[1] = nlevels; out[2] = p->input_bit_size; out[3] = n >= 2 ? p->output_bit_size : 64;
+  out[4] = n >= 2 ? p->reduc_metadata.h : 0;
+  for (int k = 0; k < 4; ++k) out[5 + k] = n >= 2 ? p->reduc_metadata.modulo_red_cst[k] : 0;
+  for (uint64_t l = 0; l < nlevels; ++l) {
+    const q120_ntt_step_precomp* s = p->level_metadata + l;
+    uint64_t* o = out + 9 + 7 * l;
+    o[0] = s->half_bs; o[1] = s->bs; o[2] = s->reduce;
+    for (int k = 0; k < 4; ++k) o[3 + k] = s->q2bs[k];
+  }
+  return 9 + 7 * nlevels;
+}
+EXPORT const uint64_t* vh_q120_ntt_powomega(const q120_ntt_precomp* p) { return p->powomega; }
+EXPORT void vh_q120_baa_meta(const q120_mat1col_product_baa_precomp* p, uint64_t* out) {
+  out[0] = p->h;
+  for (int k = 0; k < 4; ++k) out[1 + k] = p->h_pow_red[k];
+}
+EXPORT void vh_q120_bbb_meta(const q120_mat1col_product_bbb_precomp* p, uint64_t* out) {
+  out[0] = p->h;
+  const uint64_t* arr[7] = {p->s1h_pow_red, p->s2l_pow_red, p->s2h_pow_red, p->s3l_pow_red, p->s3h_pow_red, p->s4l_pow_red, p->s4h_pow_red};
+  for (int a = 0; a < 7; ++a)
+    for (int k = 0; k < 4; ++k) out[1 + 4 * a + k] = arr[a][k];
+}
+EXPORT void vh_q120_bbc_meta(const q120_mat1col_product_bbc_precomp* p, uint64_t* out) {
+  out[0] = p->h;
+  for (int k = 0; k < 4; ++k) out[1 + k] = p->s2l_pow_red[k];
+  for (int k = 0; k < 4; ++k) out[5 + k] = p->s2h_pow_red[k];
+}
+EXPORT void vh_q120_primes(uint64_t* out) {
+  out[0] = Q1; out[1] = Q2; out[2] = Q3; out[3] = Q4;
+  out[4] = OMEGA1; out[5] = OMEGA2; out[6] = OMEGA3; out[7] = OMEGA4;
+  out[8] = Q1_CRT_CST; out[9] = Q2_CRT_CST; out[10] = Q3_CRT_CST; out[11] = Q4_CRT_CST;
+}
